@@ -982,7 +982,8 @@ func c02SuiteJSON(cases []c02TC, get bool, getComps []int) []byte {
 		suite.TestCases = append(suite.TestCases, c02TestCase(tc))
 	}
 	b, _ := protojson.Marshal(suite)
-	return b
+	// the file is read as YAML, which does not admit a raw DEL (protojson escapes the bytes below 0x20 only)
+	return bytes.ReplaceAll(b, []byte{0x7f}, []byte(`\u007f`))
 }
 
 func c02E2E(c *gen.Ctx, in c02E2EIn) c02E2EOut {
@@ -1269,6 +1270,17 @@ func c02ClassMsg(r *gen.Rand) string {
 	for i := len(segs) - 1; i > 0; i-- {
 		j := r.Intn(i + 1)
 		segs[i], segs[j] = segs[j], segs[i]
+	}
+	// the space class stays inside: gRPC-Web carries grpc-message in a trailer block in the body, written
+	// and parsed as header lines — a space is not percent-encoded, and optional white space around a field
+	// value is not part of it: a message that begins or ends with a space arrives without it (connect-go and
+	// grpc-go peers alike; noted in agent-notes/s2.md as a limit of the transport, outside WireLaw)
+	for i, sg := range segs {
+		if strings.HasPrefix(sg, " ") || strings.HasSuffix(sg, " ") {
+			if i == 0 || i == len(segs)-1 {
+				segs[i], segs[1] = segs[1], segs[i]
+			}
+		}
 	}
 	return strings.Join(segs, "")
 }
